@@ -28,4 +28,5 @@ CONSTANTS
  MCIds <- IdsP
  MCNames <- NamesAll
 INVARIANTS CtlSafety SubscriberComplete PrevCancelled
+PROPERTIES StopCancels
 CHECK_DEADLOCK FALSE
